@@ -101,6 +101,25 @@ static void collect(struct ctx *c, int sid, int rec_from, struct units *u)
         uref_block_size(r->uref, &size);
         if (u->n >= c->slen + 16 || u->n >= MAXUNITS || u->used + (int)size > MAXSTREAM + 32) { FAIL("termination/budget", "%s delivered more octets (> %d in %d units) than it was given (%d): flush/release does not terminate or duplicates data", kname[c->kind], u->used, u->n, c->slen); return; }
         if (size) uref_block_extract(r->uref, 0, size, u->data + u->used);
+        /* a delivered unit is a whole block: what a consumer appends to it comes right behind its last octet (an aggregating pipe
+         * downstream does just that); judged on a duplicate with a 3-octet marker */
+        if (size && size <= 4096 && !c->ret) {
+            struct ubuf *d = ubuf_dup(r->uref->ubuf), *m = ubuf_block_alloc(c->pfx.fm.block_mgr, 3);
+            static uint8_t back[4096 + 3];
+            uint8_t *wp; int ws = -1;
+            if (d && m && ubase_check(ubuf_block_write(m, 0, &ws, &wp)) && ws == 3) {
+                wp[0] = 0xa1; wp[1] = 0xb2; wp[2] = 0xc3; ubuf_block_unmap(m, 0);
+                if (ubase_check(ubuf_block_append(d, m))) {
+                    m = NULL;
+                    size_t ds = 0;
+                    if (!ubase_check(ubuf_block_size(d, &ds)) || ds != size + 3 || !ubase_check(ubuf_block_extract(d, 0, -1, back)) ||
+                        memcmp(back, u->data + u->used, size) || back[size] != 0xa1 || back[size + 1] != 0xb2 || back[size + 2] != 0xc3)
+                        FAIL("unit/not-a-whole-block", "%s: unit %d of %zu octets, duplicated and extended by 3 octets, does not read back as its octets followed by the 3 (size %zu)", kname[c->kind], u->n, size, ds);
+                }
+            }
+            if (m) ubuf_free(m);
+            if (d) ubuf_free(d);
+        }
         u->off[u->n] = u->used; u->len[u->n] = size; u->n++; u->used += size;
     }
 }
